@@ -167,8 +167,27 @@ def isDecimal (n : Name) : Bool :=
 
 def str (s : String) : List Byte := s.toUTF8.toList
 
-def nexusKeywords : List Name := ["#NEXUS", "BEGIN", "DATA", "CHARACTERS", "TAXA", "TAXLABELS", "TREES", "TREE",
-  "DIMENSIONS", "NTAX", "NCHAR", "FORMAT", "DATATYPE", "MISSING", "MATCHCHAR", "GAP", "MATRIX", "END"].map str
+/-- #NEXUS BEGIN DATA CHARACTERS TAXA TAXLABELS TREES TREE DIMENSIONS NTAX NCHAR FORMAT DATATYPE MISSING MATCHCHAR GAP
+MATRIX END (byte literals: kernel-evaluable) -/
+def nexusKeywords : List Name := [
+  [35, 78, 69, 88, 85, 83],
+  [66, 69, 71, 73, 78],
+  [68, 65, 84, 65],
+  [67, 72, 65, 82, 65, 67, 84, 69, 82, 83],
+  [84, 65, 88, 65],
+  [84, 65, 88, 76, 65, 66, 69, 76, 83],
+  [84, 82, 69, 69, 83],
+  [84, 82, 69, 69],
+  [68, 73, 77, 69, 78, 83, 73, 79, 78, 83],
+  [78, 84, 65, 88],
+  [78, 67, 72, 65, 82],
+  [70, 79, 82, 77, 65, 84],
+  [68, 65, 84, 65, 84, 89, 80, 69],
+  [77, 73, 83, 83, 73, 78, 71],
+  [77, 65, 84, 67, 72, 67, 72, 65, 82],
+  [71, 65, 80],
+  [77, 65, 84, 82, 73, 88],
+  [69, 78, 68]]
 
 /-- FASTA: a name is one line (no line break, no leading blank: guaranteed by `isPrintable`) that
 does not start with the record delimiter `>`. -/
@@ -188,13 +207,13 @@ def reprNexus (rows : List XRow) : Bool :=
 
 /-- Clustal: names hold no blank; a name must not spell the header word. -/
 def reprClustal (rows : List XRow) : Bool :=
-  reprBase rows && rows.all (fun r => upperName r.1 != str "CLUSTAL" && upperName r.1 != str "CLUSTALW")
+  reprBase rows && rows.all (fun r => upperName r.1 != [67, 76, 85, 83, 84, 65, 76] && upperName r.1 != [67, 76, 85, 83, 84, 65, 76, 87])
 
 /-- Stockholm: names free of `[ ] ; =`, not starting with `#`, not `//` and not the header word -/
 def reprStockholm (rows : List XRow) : Bool :=
   reprBase rows && rows.all (fun r =>
     r.1.all (fun b => b != 91 && b != 93 && b != 59 && b != 61) && r.1.head? != some 35 &&
-    r.1 != str "//" && upperName r.1 != str "STOCKHOLM")
+    r.1 != [47, 47] && upperName r.1 != [83, 84, 79, 67, 75, 72, 79, 76, 77])
 
 def reprFmt (fmt : String) (strict : Bool) (rows : List XRow) : Bool :=
   match fmt with
